@@ -39,6 +39,7 @@ import (
 	"github.com/NibiruChain/nibiru/v2/x/common/testutil/testapp"
 	"github.com/NibiruChain/nibiru/v2/x/evm"
 	"github.com/NibiruChain/nibiru/v2/x/evm/evmtest"
+	"github.com/NibiruChain/nibiru/v2/x/evm/precompile"
 	oracletypes "github.com/NibiruChain/nibiru/v2/x/oracle/types"
 	sudotypes "github.com/NibiruChain/nibiru/v2/x/sudo/types"
 	tftypes "github.com/NibiruChain/nibiru/v2/x/tokenfactory/types"
@@ -222,7 +223,14 @@ func runReplicas(r *hx.R, n int, w *hx.W, _ []string) error {
 		_ = period
 		nrand := 1 + r.Pick(4)
 		for i := 0; i < nrand; i++ {
-			switch r.Pick(9) {
+			switch r.Pick(10) {
+			case 9: // an Ethereum tx straight to a Nibiru precompile with calldata it cannot serve: the VM error text is part of the
+				// tx result data every replica must agree on
+				pcs := []gethcommon.Address{precompile.PrecompileAddr_FunToken, precompile.PrecompileAddr_Wasm, precompile.PrecompileAddr_Oracle}
+				to := pcs[r.Pick(len(pcs))]
+				data := make([]byte, 4+r.Pick(40))
+				r.Read(data)
+				add("eth-precompile-junk", ethTxBytes(r.Pick(2), &to, data, big.NewInt(0), 500_000))
 			case 0, 1: // sudoers edits with several contracts
 				k := 2 + r.Pick(4)
 				var cs []string
